@@ -31,7 +31,33 @@ func checkC19(w *World, r *Report) {
 		compile = ci
 		compileFn = ci.Common().StaticCallee()
 	}
-	writers := findCalls(run, func(n string, c *ssa.CallCommon) bool { return c.IsInvoke() && c.Method.Name() == "Writer" })
+	isWriter := func(n string, c *ssa.CallCommon) bool { return c.IsInvoke() && c.Method.Name() == "Writer" }
+	writers := findCalls(run, isWriter)
+	// the writers may be opened in a helper that Run calls with the job id and the task name:
+	// their arguments are then read with the helper's parameters bound to the call's arguments
+	var openHelper *ssa.Function
+	var openCall *ssa.Call
+	if len(writers) == 0 {
+		allInstrs(run, func(in ssa.Instruction) {
+			if c, ok := in.(*ssa.Call); ok {
+				if g := c.Call.StaticCallee(); g != nil && g.Blocks != nil && w.InModule(g) && len(findCalls(g, isWriter)) > 0 {
+					openHelper, openCall = g, c
+				}
+			}
+		})
+		if openHelper != nil {
+			writers = findCalls(openHelper, isWriter)
+			penv := map[*ssa.Parameter]ssa.Value{}
+			for i, p := range openHelper.Params {
+				if i < len(openCall.Call.Args) {
+					penv[p] = w.Resolve(openCall.Call.Args[i])
+				}
+			}
+			saved := w.paramEnv
+			w.paramEnv = penv
+			defer func() { w.paramEnv = saved }()
+		}
+	}
 	if compile == nil || compileFn == nil || len(writers) == 0 {
 		r.Viol("labels.run", FuncName(run)+": writers and CompileTask", w.Pos(run.Pos()), fmt.Sprintf("Run has %d output-store writers and CompileTask call=%v: task output is not captured", len(writers), compile != nil))
 	} else {
@@ -56,7 +82,10 @@ func checkC19(w *World, r *Report) {
 			jobArg, taskArg := w.AP(call.Call.Args[0]), w.AP(call.Call.Args[1])
 			okK := strings.Contains(jobArg, "arg0.Variables.Get(\"__jobID\")") && taskArg == "arg0.Name"
 			r.Check(okK, "key.writer-args", FuncName(run)+": writer \""+stream+"\" key", w.InstrPos(call), "opened for (the task's own job-id variable, the task's name, \""+stream+"\")", "the log writer is opened for ("+jobArg+", "+taskArg+"): output is attributed to another job or task")
-			inLoop := PathQuery{Fn: run, Start: []ssa.Instruction{call}, Target: func(x ssa.Instruction) bool { return x == ssa.Instruction(call) }}.Find().Found
+			inLoop := PathQuery{Fn: call.Parent(), Start: []ssa.Instruction{call}, Target: func(x ssa.Instruction) bool { return x == ssa.Instruction(call) }}.Find().Found
+			if openCall != nil {
+				inLoop = inLoop || PathQuery{Fn: run, Start: []ssa.Instruction{openCall}, Target: func(x ssa.Instruction) bool { return x == ssa.Instruction(openCall) }}.Find().Found
+			}
 			r.Check(!inLoop, "key.writer-once", FuncName(run)+": writer \""+stream+"\" opened once per run", w.InstrPos(call), "not in a loop: one file per task run and stream, shared by all commands of the task", "the log file is (re)created in a loop: output of earlier commands of the task is truncated")
 		}
 		r.Check(seenStreams["stdout"] && seenStreams["stderr"], "labels.both-streams", FuncName(run)+": both streams captured", w.Pos(run.Pos()), "writers for \"stdout\" and \"stderr\"", "not both streams are captured")
